@@ -60,19 +60,30 @@ def generate(facts):
     blocksize = inspect.signature(ucon.HTTPConnection.__init__).parameters["blocksize"].default
     path_chars = sorted(ord(c) for c in uurl._PATH_CHARS)
     query_chars = sorted(ord(c) for c in uurl._QUERY_CHARS)
+    def pat(obj, *path):
+        """source text of a regex; a renamed / removed regex is recorded as "<missing>" (the pins are
+        documentation: harness/props/c10.py escalates the matcher correspondence when one changed)"""
+        try:
+            for a in path:
+                obj = getattr(obj, a)
+            p = obj.pattern
+            return p.decode("latin-1") if isinstance(p, bytes) else p
+        except Exception:
+            return "<missing>"
+
     pins = {
-        "pinTokenRe": ucon._CONTAINS_CONTROL_CHAR_RE.pattern,
-        "pinTargetRe": uurl._TARGET_RE.pattern,
-        "pinPercentRe": uurl._PERCENT_RE.pattern,
-        "pinHcMethodRe": http.client._contains_disallowed_method_pchar_re.pattern,
-        "pinHcUrlRe": http.client._contains_disallowed_url_pchar_re.pattern,
-        "pinHcLegalNameRe": http.client._is_legal_header_name.__self__.pattern.decode("latin-1"),
-        "pinHcIllegalValueRe": http.client._is_illegal_header_value.__self__.pattern.decode("latin-1"),
+        "pinTokenRe": pat(ucon, "_CONTAINS_CONTROL_CHAR_RE"),
+        "pinTargetRe": pat(uurl, "_TARGET_RE"),
+        "pinPercentRe": pat(uurl, "_PERCENT_RE"),
+        "pinHcMethodRe": pat(http.client, "_contains_disallowed_method_pchar_re"),
+        "pinHcUrlRe": pat(http.client, "_contains_disallowed_url_pchar_re"),
+        "pinHcLegalNameRe": pat(http.client, "_is_legal_header_name", "__self__"),
+        "pinHcIllegalValueRe": pat(http.client, "_is_illegal_header_value", "__self__"),
     }
     try:
         h2c = importlib.import_module("urllib3.http2.connection")
-        pins["pinH2NameRe"] = h2c.RE_IS_LEGAL_HEADER_NAME.pattern.decode("latin-1")
-        pins["pinH2ValueRe"] = h2c.RE_IS_ILLEGAL_HEADER_VALUE.pattern.decode("latin-1")
+        pins["pinH2NameRe"] = pat(h2c, "RE_IS_LEGAL_HEADER_NAME")
+        pins["pinH2ValueRe"] = pat(h2c, "RE_IS_ILLEGAL_HEADER_VALUE")
     except Exception as e:  # h2 missing: no HTTP/2 pins
         facts["wire_h2_error"] = repr(e)
 
